@@ -74,7 +74,7 @@ PROPS["C18"] = dict(
              "All 95k same-base pairs are checked for the exact factor, reciprocity and symmetry, all 1.9M same-base triples for "
              "composition, and cross-base / cross-power pairs for rejection (quick: prefixes {none,m,k}: 0.4M pairs; thorough: all 20M). "
              "Complete over that alphabet. Part (b): Tag, MultiTag and dataSlice requests on unit-carrying axes (rank 1-2) are re-expressed with every SI prefix and numerically "
-             "rescaled values (only where the library's own arithmetic reproduces the unscaled numbers exactly, checked per case) and must return the same region.",
+             "rescaled values (only where the library's own arithmetic reproduces the unscaled numbers exactly, checked per case) and must return the same region. Every configuration of part (b) runs a second time under a global C++ locale with decimal comma and digit grouping.",
         note="Factors compared with relative tolerance 1e-12 (any realistic defect is off by a factor >= 10). A missing power and an explicit ^1 "
              "are not compared with each other. The base-unit list is transcribed from the library and validated through isSIUnit."),
     evidence=dict(
@@ -104,7 +104,7 @@ PROPS["C02"] = dict(
              "by the canonical observation. On every transition the full observation (all entities, attributes, links, descriptors, data, "
              "creation times, lookup agreement) taken in the writing session is compared with the one after close+reopen ReadOnly, ReadWrite and, "
              "for every new state, with the one a separate process (fork+exec) makes. States carry a fresh/same-session flag so histories with and "
-             "without intermediate reopen are both covered. The other process runs in another time zone, locale environment and working directory than the writer; every new state is additionally reopened ReadOnly and ReadWrite through a symbolic link, a hard link and a path with ./ and ../ components, and once more under the original path afterwards.",
+             "without intermediate reopen are both covered. The other process runs in another time zone, locale environment and working directory than the writer; every new state is additionally reopened ReadOnly and ReadWrite through a symbolic link, a hard link and a path with ./ and ../ components, and once more under the original path afterwards. Chained operations do several growth steps through ONE array handle that stays alive while close() runs; what that handle shows after the step must equal what a fresh handle shows.",
         note="No reference model is needed: the oracle is differential. updated_at is not part of the statement and is excluded. Bounded by depth and "
              "by the name pools of the alphabet (DESIGN appendix A)."),
     evidence=dict(
@@ -155,7 +155,7 @@ PROPS["C08"] = dict(
              "plus two rich seeds and, in thorough, their successors). In each state each of ~150 catalogue calls (duplicate / empty / slash names, empty "
              "types, unknown or foreign link targets, mismatching shapes and element types, unsorted ticks, non-SI units, non-positive intervals, "
              "unsupported element types, out-of-range indices and offsets) is attempted on the first entity of the addressed kind; whenever the call throws, "
-             "the complete observation through fresh handles must equal the one taken before the call, and again after close+reopen. Stale-link-target scenarios (16 link operations x 2 seeds): the target is linked and unlinked through the kept holder handle, deleted through another handle, then linked again by id and by the stale handle - if refused, nothing may change (same session and after reopen).",
+             "the complete observation through fresh handles must equal the one taken before the call, and again after close+reopen. Stale-link-target scenarios (16 link operations x 2 seeds): the target is linked and unlinked through the kept holder handle, deleted through another handle, then linked again by id and by the stale handle - if refused, nothing may change (same session and after reopen). Duplicate creations also under the name of the LAST entity of a container (seed R3 carries entities with id-shaped names); Group::multiTags(vector with a foreign multi-tag).",
         note="A call that unexpectedly succeeds is not a C08 matter and is only counted. The catalogue is hand-written (DESIGN 3.11). Empty HDF5 container "
              "groups left behind are not observable through the API and are ignored."),
     evidence=dict(
@@ -210,7 +210,7 @@ PROPS["C04"] = dict(
              "handles of the victim (and of all nodes of a deleted source/section subtree) must report invalid or throw. Second part (props/C04x.cpp, "
              "family delete): every delete*(const Entity&) overload is handed a handle that does not belong to the container it is called on but "
              "carries the name of a member (other block, deeper level of the same tree, other tag): it must refuse and leave the whole observation as it "
-             "was; handed a real member it must delete it; both in the creating session and after REOPEN, and the result must survive a reopen. Owner handles obtained before the deletion and already asked about the victim's id are asked again after it; in the 0-/1-link graphs and the all-links graph an entity is then re-created under the victim's name: the old id must resolve to nothing (fresh owner, kept owner, kept owner unused in between), old handles stay invalid, deletion by the old id removes nothing. Link menu incl. an alias array with a further descriptor.",
+             "was; handed a real member it must delete it; both in the creating session and after REOPEN, and the result must survive a reopen. Owner handles obtained before the deletion and already asked about the victim's id are asked again after it; in the 0-/1-link graphs and the all-links graph an entity is then re-created under the victim's name: the old id must resolve to nothing (fresh owner, kept owner, kept owner unused in between), old handles stay invalid, deletion by the old id removes nothing. Link menu incl. an alias array with a further descriptor. A SECOND deletion follows in the same session: an entity at the other end of a link of the first victim's family is deleted too (the first victim's handles dropped / still alive, alternating); handles of it taken before both deletions must report invalid and the state must equal the model.",
         note="'Does not expose' accepts none or an exception from a holder whose target is gone. Handles to entities that merely lived inside the victim "
              "(arrays of a deleted block, properties of a deleted section) are not constrained by the statement."),
     evidence=dict(
@@ -260,7 +260,7 @@ PROPS["C20"] = dict(
              "brute-force BFS (set equality, each entity once; exact breadth-first order for single-node starts). After creating/deleting nodes the queries are repeated through "
              "handles obtained before the change and fresh ones. Back references: every assignment of <=k metadata/source links from 11 holders, all referring* variants and "
              "parentSource vs the inverse link relation, before and after deleting each node. inheritedProperties for all subset pairs of {p,q,r} with shadowing, link-of-link "
-             "and creation orders. parentSource is also asked through the Source handles that arrays, tags and multi-tags hand out (sources() / getSource(id)).",
+             "and creation orders. parentSource is also asked through the Source handles that arrays, tags and multi-tags hand out (sources() / getSource(id)). Filters are prepared from key variables that are overwritten before the search.",
         note="The depth-limit origin per entry point is not part of the statement; it is fixed as the repository's tests pin it and probed on 1-3 node chains (case 0/1). "
              "Order of File::/Block:: searches and of referring* lists is not asserted. findRelated is excluded."),
     evidence=dict(
@@ -307,7 +307,7 @@ PROPS["C11"] = dict(
              "a child process replays the history in one session, flushes (after every step, or once at the end) or closes, records its observation and SIGKILLs itself; the "
              "parent reopens ReadOnly and ReadWrite and must see exactly that observation. (b) Every population of at most 2 of 16 handle kinds (thorough: ~10k subsets), the full "
              "set and a 40-fold population is kept alive across close(): another process must be able to open the file ReadWrite (HDF5 write lock), the same process must reopen "
-             "ReadOnly and with Overwrite, ~100 methods of the stale handles must all throw, and the file's bytes must not change.",
+             "ReadOnly and with Overwrite, ~100 methods of the stale handles must all throw, and the file's bytes must not change. Crash variant 3: the flush happens while the file may not grow (RLIMIT_FSIZE, as on a full disk) - a refused flush promises nothing, an acknowledged one must leave a complete file. (d) One path open through TWO File objects, closed in either order with handles of either kept: released, complete, stale handles throw.",
         note="Process death only (the page cache survives): no torn writes; modifications after the last flush promise nothing and are not generated. Methods that answer from "
              "memory (DataView::dataExtent, Dimension::index) are not required to throw."),
     evidence=dict(
@@ -357,7 +357,7 @@ PROPS["C12"] = dict(
              "from all ids that existed before the step. (b) Schedules: 2-3 real processes (fork+exec, fresh generator each) - and two threads of one process - run every pair of creation "
              "histories (length <= 2 quick / 3 thorough over block, section, array, property, feature, ...) on the same file in orders A-B, A-B-A, A-B-C or on different files, for every "
              "assignment of start times from {T,T,T+1}; time(), gettimeofday() and clock_gettime() of the helper return the assigned value, so 'same second' (and same nanosecond) is forced. "
-             "All ids of a schedule must be pairwise distinct and well-formed. (b'') Participants that open an existing file with no free file descriptor left when their first id is drawn (RLIMIT_NOFILE 0; a refused creation is accepted). (c) The ids of a rich file across forced ReadOnly / ReadWrite opens under 12 stored format versions, in the forced and in the following session.",
+             "All ids of a schedule must be pairwise distinct and well-formed. (b'') Participants that open an existing file with no free file descriptor left when their first id is drawn (RLIMIT_NOFILE 0; a refused creation is accepted). (c) The ids of a rich file across forced ReadOnly / ReadWrite opens under 12 stored format versions, in the forced and in the following session. Seed R3 (two blocks) with the alphabet's link attempts across blocks. A population of 400 000 ids of one process is pairwise distinct and well-formed (population bound, see DESIGN 10.11).",
         note="Real pids are left alone. Collisions of genuinely random 122-bit ids are outside any bounded check; what is decided is that ids do not become equal because of the schedule or history."),
     evidence=dict(
         keys=dict(states=("distinct", "states"), transitions=("count", "transitions"), traces_validated_against_impl=("sum", [("count", "traces"), ("count", "schedules")]),
@@ -407,7 +407,7 @@ PROPS["C16"] = dict(
              "calls (wrong ranks, zero counts, offsets at/past the extent, 2^64-1, indices past the end, slices with 0..rank+1 entries, NaN/inf positions, default-constructed, "
              "deleted-entity and closed-file handles, odd unit strings, Variant/NDSize/NDArray edge calls, validation) runs alone on a ReadWrite and on a ReadOnly copy, and in ordered "
              "pairs (quick: a systematic 1/16 sub-grid plus all stateful-first pairs /4; thorough: all pairs). Every call must return or throw a C++ exception: any ASan/UBSan report, "
-             "shim contract breach (HDF5 touching bytes outside a buffer nix handed to it), libstdc++/boost assertion, signal or std::terminate is a violation. 42 legal two-handle programs: an entity is read through handle h1, grown or shrunk through a second handle (or through the array behind an alias dimension), then read through h1 at old and new indices (range ticks, alias ticks, set labels, array extent, data-frame rows, property values, multi-tag positions).",
+             "shim contract breach (HDF5 touching bytes outside a buffer nix handed to it), libstdc++/boost assertion, signal or std::terminate is a violation. 42 legal two-handle programs: an entity is read through handle h1, grown or shrunk through a second handle (or through the array behind an alias dimension), then read through h1 at old and new indices (range ticks, alias ticks, set labels, array extent, data-frame rows, property values, multi-tag positions). Typed std::vector targets with count vectors of every shape through arrays and views; multi-tags without positions carry features and are asked through every single-position featureData spelling incl. the deprecated ones.",
         note="No uninitialised-read detection (MSan would need an instrumented libhdf5/boost). The other checks also run crash-sandboxed; their ASan runs are part of the thorough tier of C16."),
     evidence=dict(
         keys=dict(states=("distinct", "outcomes"), transitions=("count", "calls"), traces_validated_against_impl=("count", "programs"),
@@ -454,7 +454,7 @@ PROPS["C01"] = dict(
              "and typed (vector, T[N], multi_array, scalar) overloads and between a kept and a fresh handle. After the last step every sub-hyperslab (all while axes <= 3) is read into "
              "sentinel-pre-filled buffers through getData, getDataDirect and typed reads and compared bitwise with the model; calibrated and cross-type reads are compared where the "
              "expected value is exactly representable. A large-array family (3000 elements, three compressions, sparse writes around chunk boundaries, reused dirty buffers) checks that "
-             "never-written regions read as zero. A large-region family (arrays of 3000 and 40x60 elements of Double / Int32 / Int16 holding their linear index; regions of more than 1024 elements starting at and behind the first row, full and partial rows) is read raw and calibrated as Double, Float, Int64, Int32, Int16, UInt16, before and after REOPEN.",
+             "never-written regions read as zero. A large-region family (arrays of 3000 and 40x60 elements of Double / Int32 / Int16 holding their linear index; regions of more than 1024 elements starting at and behind the first row, full and partial rows) is read raw and calibrated as Double, Float, Int64, Int32, Int16, UInt16, before and after REOPEN. Blocks of zeros of more than 8 KiB are written over stored non-zero data (Double, Int32, Int16, UInt8 x three compression settings, rank 1 and 2) and read back before and after REOPEN.",
         note="Out-of-range cross-type conversion is don't-care; Bool/String read as numeric may throw. Strings with embedded NUL are not generated."),
     evidence=dict(
         keys=dict(states=("distinct", "states"), transitions=("count", "transitions"), traces_validated_against_impl=("count", "traces"),
@@ -480,7 +480,7 @@ PROPS["C05"] = dict(
         text="One Tag is re-stored over the product of per-axis candidates (every coordinate, +-1 ulp, midpoints, below, above, beyond the data; extents absent, 0, negative and every e "
              "with p+e on a candidate; 0..rank+1 position entries) on arrays whose cell value is its linear index. Tag::taggedData, util::taggedData, getOffsetAndCount and featureData "
              "(index, name, id, handle; Tagged / Untagged / Indexed) in both modes and with the defaults are compared with the reference block (extent and full content read into a "
-             "sentinel-filled buffer) or must raise.",
+             "sentinel-filled buffer) or must raise. Every tag is also retrieved through the deprecated retrieveData / retrieveFeatureData spellings (rotation). After the grid the axes of the referenced array and of the tagged feature are changed IN PLACE (ticks 2t+0.75; interval doubled, offset +0.75) and the tags with as many entries as dimensions are evaluated again against the new coordinates.",
         note=_GRID_NOTE),
     evidence=dict(
         keys=dict(evaluations=("sum", [("count", "retrievals"), ("count", "getOffsetAndCount_calls")]), distinct_nontrivial=("distinct", "outcomes")),
@@ -500,7 +500,7 @@ PROPS["C06"] = dict(
         technique="exhaustive input grid: array configurations x positions/extents tables (N in {1,2,3,8}; 1-D, Nx1, NxD, Nx(D-1), Nx(D+1)) x every index and index list x modes x link types, against the reference region of row i and against the list of single retrievals",
         text="Rows are drawn from the C05 candidates into positions/extents tables; every index 0..N+1 through util::taggedData, MultiTag::taggedData, getOffsetAndCount and tagged / "
              "untagged / indexed featureData (indexed features with N and N-1 slices), and the index lists [], [i], [i,j], [j,i], [i,i], [2,0,1], all, [i,N] are compared with the "
-             "reference region of each row, in the requested order; indices beyond the positions must raise.",
+             "reference region of each row, in the requested order; indices beyond the positions must raise. Deprecated retrieveData spellings (single index and list) rotate with the others; every second multi-tag reads positions and extents through a calibration polynomial; a row of the positions table is corrected in place between two retrievals of the same index.",
         note=_GRID_NOTE + " The empty index list is read as the library's spelling of 'all positions'."),
     evidence=dict(
         keys=dict(evaluations=("sum", [("count", "retrievals"), ("count", "getOffsetAndCount_calls"), ("count", "list_retrievals")]), distinct_nontrivial=("distinct", "outcomes")),
